@@ -46,6 +46,8 @@ def rand_class(rng, max_alpha=3, max_prefix=3, max_stats=3, bytes_p=0.15, atoms=
         d["right"] = {"prefix": "".join(rng.choice(alphabet) for _ in range(rng.choice((0, 0, 1)))),
                       "patterns": sorted(rp), "alphabet": alphabet, "just_prefix": False,
                       "stats": stats, "proper": bool(rng.random() < 0.15), "right": None}
+    if d["bytes"] and not d["just_prefix"] and rng.random() < 0.4:
+        d["mixed"] = True  # compressed classes with plain (uncompressed) atoms in one class database
     if d["right"] is None and not d["just_prefix"] and rng.random() < 0.07:
         # flagged class: every word preceded by one of 2-3 flag letters (non-bijective rule)
         d["flags"] = rng.choice(("xy", "xy", "xyz"))
